@@ -35,7 +35,8 @@ Proof. intros l m m' [H1 H2] Hm. split; [assumption|]. eapply Forall_impl; [|exa
 Ltac same H :=
   first [ exact (wf_groups _ H) | exact (wf_sg _ H) | exact (wf_sh _ H) | exact (wf_ig _ H) | exact (wf_ix _ H)
         | exact (wf_mst _ H) | exact (wf_node _ H) | exact (wf_dbn _ H) | exact (wf_poln _ H) | exact (wf_poldb _ H)
-        | exact (wf_refs _ H) | exact (wf_def _ H) | exact (wf_ptv _ H) | exact (wf_nonneg _ H) | exact (wf_dur _ H) ].
+        | exact (wf_refs _ H) | exact (wf_def _ H) | exact (wf_ptv _ H) | exact (wf_nonneg _ H) | exact (wf_dur _ H)
+        | exact (wf_nm _ H) ].
 
 Lemma nonneg_get : forall c, wf c ->
   0 <= max_sg c /\ 0 <= max_sh c /\ 0 <= max_ig c /\ 0 <= max_ix c /\ 0 <= max_mst c /\ 0 <= max_node c /\ 0 <= ptnum c.
@@ -117,56 +118,105 @@ Proof.
 Qed.
 
 (* ---------------------------------------------------------------- generic: one policy changes, its groups do not *)
+Lemma updf_map_NoDup : forall {A B} (P : A -> bool) (g : A -> A) (h : A -> B) l, NoDup (map h l) ->
+  (forall y, In y l -> P y = true -> h (g y) = h y \/ ~ In (h (g y)) (map h l)) -> NoDup (map h (upd_first P g l)).
+Proof.
+  intros A B P g h. induction l as [|a l IH]; cbn [upd_first map]; intros HN Hg; [constructor|].
+  inversion HN; subst. destruct (P a) eqn:E; cbn [map].
+  - constructor; [|assumption]. destruct (Hg a (or_introl eq_refl) E) as [Eq|Nin]; [rewrite Eq; assumption|].
+    intro Hin. apply Nin. cbn. right. exact Hin.
+  - constructor.
+    + intro Hin. apply in_map_iff in Hin. destruct Hin as [y [Ey Hy]]. apply updf_In in Hy.
+      destruct Hy as [Hy|[z [Hz [Pz ->]]]].
+      * apply H1. rewrite <- Ey. apply in_map. exact Hy.
+      * destruct (Hg z (or_intror Hz) Pz) as [Eq|Nin].
+        -- apply H1. rewrite <- Ey, Eq. apply in_map. exact Hz.
+        -- apply Nin. rewrite Ey. cbn. left. reflexivity.
+    + apply IH; [assumption|]. intros y Hy Py. destruct (Hg y (or_intror Hy) Py) as [Eq|Nin]; [left; exact Eq|right].
+      intro Hin. apply Nin. cbn. right. exact Hin.
+Qed.
+
+Lemma updf_map_In_other : forall {A B} (P : A -> bool) (g : A -> A) (h : A -> B) l k, In k (map h l) ->
+  (forall y, P y = true -> h y <> k) -> In k (map h (upd_first P g l)).
+Proof.
+  intros A B P g h. induction l as [|a l IH]; cbn [upd_first map]; intros k Hin Hk; [contradiction|].
+  destruct (P a) eqn:E; cbn [map].
+  - destruct Hin as [Ha|Hin]; [exfalso; exact (Hk a E Ha) | right; exact Hin].
+  - destruct Hin as [Ha|Hin]; [left; exact Ha | right; apply IH; assumption].
+Qed.
+
+(* the policy may change its key and the databases their default names, as long as keys stay unique and defaults resolve *)
+Lemma wf_pols_meta_gen2 : forall c c' P g, wf c ->
+  pols c' = upd_first P g (pols c) ->
+  (forall q, rp_db (g q) = rp_db q /\ rp_sgs (g q) = rp_sgs q /\ rp_igs (g q) = rp_igs q) ->
+  (forall q, 0 < rp_sgdur q -> 0 < rp_sgdur (g q)) ->
+  (forall q, rp_nm q = rp_name q -> rp_nm (g q) = rp_name (g q)) ->
+  NoDup (pol_keys c') -> map db_name (dbs c') = map db_name (dbs c) -> Forall (default_ok c') (dbs c') ->
+  nodes c' = nodes c -> ptview c' = ptview c -> ptnum c' = ptnum c ->
+  (max_sg c' = max_sg c /\ max_sh c' = max_sh c /\ max_ig c' = max_ig c /\ max_ix c' = max_ix c /\ max_node c' = max_node c) ->
+  uniq_lt (mst_ids c') (max_mst c') -> 0 <= max_mst c' ->
+  wf c'.
+Proof.
+  intros c c' P g H Ep Hg Hdur Hnm Hkeys Ed Hdef End Epv Epn (E1 & E2 & E3 & E4 & E6) Hm Hm0.
+  constructor.
+  - rewrite Ep. apply updf_Forall; [|exact (wf_groups _ H)]. intros x _ Q. destruct (Hg x) as (_ & -> & _). exact Q.
+  - unfold sg_ids. rewrite Ep, E1. rewrite updf_flat_map_same; [exact (wf_sg _ H)|].
+    intros x _. destruct (Hg x) as (_ & -> & _). reflexivity.
+  - unfold sh_ids, sh_ids_of. rewrite Ep, E2. rewrite updf_flat_map_same; [exact (wf_sh _ H)|].
+    intros x _. destruct (Hg x) as (_ & -> & _). reflexivity.
+  - unfold ig_ids. rewrite Ep, E3. rewrite updf_flat_map_same; [exact (wf_ig _ H)|].
+    intros x _. destruct (Hg x) as (_ & _ & ->). reflexivity.
+  - unfold ix_ids, ix_ids_of. rewrite Ep, E4. rewrite updf_flat_map_same; [exact (wf_ix _ H)|].
+    intros x _. destruct (Hg x) as (_ & _ & ->). reflexivity.
+  - exact Hm.
+  - unfold node_ids. rewrite End, E6. exact (wf_node _ H).
+  - rewrite Ed. exact (wf_dbn _ H).
+  - exact Hkeys.
+  - rewrite Ep, Ed. apply updf_Forall; [|exact (wf_poldb _ H)]. intros x _ Q. destruct (Hg x) as (-> & _). exact Q.
+  - rewrite Ep. apply updf_Forall.
+    + intros x _ Q. destruct (Hg x) as (_ & E1' & E2').
+      eapply refs_ok_mono; [| |apply Z.le_refl|exact Q].
+      * intros g' Hg'. rewrite E1' in Hg'. exists g'. split; [assumption | apply sg_sim_refl].
+      * unfold ix_ids_of. rewrite E2'. auto.
+    + eapply Forall_impl; [|exact (wf_refs _ H)]. intros p. apply refs_ok_same. symmetry. exact Epn.
+  - exact Hdef.
+  - rewrite Epv, Epn. exact (wf_ptv _ H).
+  - pose proof (nonneg_get _ H). rewrite E1, E2, E3, E4, E6, Epn. repeat (constructor; [lia|]). constructor.
+  - rewrite Ep. apply updf_Forall; [|exact (wf_dur _ H)]. intros x _ Q. apply Hdur. exact Q.
+  - rewrite Ep. apply updf_Forall; [|exact (wf_nm _ H)]. intros x _ Q. apply Hnm. exact Q.
+Qed.
+
 Lemma wf_pols_meta_gen : forall c c' P g, wf c ->
   pols c' = upd_first P g (pols c) ->
-  (forall q, rp_db (g q) = rp_db q /\ rp_name (g q) = rp_name q /\ rp_sgs (g q) = rp_sgs q /\ rp_igs (g q) = rp_igs q) ->
+  (forall q, rp_db (g q) = rp_db q /\ rp_name (g q) = rp_name q /\ rp_nm (g q) = rp_nm q /\ rp_sgs (g q) = rp_sgs q /\ rp_igs (g q) = rp_igs q) ->
   (forall q, 0 < rp_sgdur q -> 0 < rp_sgdur (g q)) ->
   dbs c' = dbs c -> nodes c' = nodes c -> ptview c' = ptview c -> ptnum c' = ptnum c ->
   (max_sg c' = max_sg c /\ max_sh c' = max_sh c /\ max_ig c' = max_ig c /\ max_ix c' = max_ix c /\ max_node c' = max_node c) ->
   uniq_lt (mst_ids c') (max_mst c') -> 0 <= max_mst c' ->
   wf c'.
 Proof.
-  intros c c' P g H Ep Hg Hdur Ed End Epv Epn (E1 & E2 & E3 & E4 & E6) Hm Hm0.
+  intros c c' P g H Ep Hg Hdur Ed End Epv Epn Ec Hm Hm0.
   assert (Ek : pol_keys c' = pol_keys c).
   { unfold pol_keys. rewrite Ep. apply updf_map_same. intros x _. destruct (Hg x) as (-> & -> & _). reflexivity. }
-  constructor.
-  - rewrite Ep. apply updf_Forall; [|exact (wf_groups _ H)]. intros x _ Q. destruct (Hg x) as (_ & _ & -> & _). exact Q.
-  - unfold sg_ids. rewrite Ep, E1. rewrite updf_flat_map_same; [exact (wf_sg _ H)|].
-    intros x _. destruct (Hg x) as (_ & _ & -> & _). reflexivity.
-  - unfold sh_ids, sh_ids_of. rewrite Ep, E2. rewrite updf_flat_map_same; [exact (wf_sh _ H)|].
-    intros x _. destruct (Hg x) as (_ & _ & -> & _). reflexivity.
-  - unfold ig_ids. rewrite Ep, E3. rewrite updf_flat_map_same; [exact (wf_ig _ H)|].
-    intros x _. destruct (Hg x) as (_ & _ & _ & ->). reflexivity.
-  - unfold ix_ids, ix_ids_of. rewrite Ep, E4. rewrite updf_flat_map_same; [exact (wf_ix _ H)|].
-    intros x _. destruct (Hg x) as (_ & _ & _ & ->). reflexivity.
-  - exact Hm.
-  - unfold node_ids. rewrite End, E6. exact (wf_node _ H).
-  - rewrite Ed. exact (wf_dbn _ H).
+  eapply (wf_pols_meta_gen2 c c' P g); try eassumption.
+  - intros q. destruct (Hg q) as (? & ? & ? & ? & ?). tauto.
+  - intros q Q. destruct (Hg q) as (_ & -> & -> & _). exact Q.
   - rewrite Ek. exact (wf_poln _ H).
-  - rewrite Ep, Ed. apply updf_Forall; [|exact (wf_poldb _ H)]. intros x _ Q. destruct (Hg x) as (-> & _). exact Q.
-  - rewrite Ep. apply updf_Forall.
-    + intros x _ Q. destruct (Hg x) as (_ & _ & E1' & E2').
-      eapply refs_ok_mono; [| |apply Z.le_refl|exact Q].
-      * intros g' Hg'. rewrite E1' in Hg'. exists g'. split; [assumption | apply sg_sim_refl].
-      * unfold ix_ids_of. rewrite E2'. auto.
-    + eapply Forall_impl; [|exact (wf_refs _ H)]. intros p. apply refs_ok_same. symmetry. exact Epn.
+  - rewrite Ed. reflexivity.
   - rewrite Ed. eapply Forall_impl; [|exact (wf_def _ H)]. intros d. unfold default_ok. rewrite Ek. auto.
-  - rewrite Epv, Epn. exact (wf_ptv _ H).
-  - pose proof (nonneg_get _ H). rewrite E1, E2, E3, E4, E6, Epn. repeat (constructor; [lia|]). constructor.
-  - rewrite Ep. apply updf_Forall; [|exact (wf_dur _ H)]. intros x _ Q. apply Hdur. exact Q.
 Qed.
 
 Lemma wf_upd_pol_meta : forall c db n g, wf c ->
-  (forall q, rp_db (g q) = rp_db q /\ rp_name (g q) = rp_name q /\ rp_sgs (g q) = rp_sgs q /\ rp_igs (g q) = rp_igs q /\
+  (forall q, rp_db (g q) = rp_db q /\ rp_name (g q) = rp_name q /\ rp_nm (g q) = rp_nm q /\ rp_sgs (g q) = rp_sgs q /\ rp_igs (g q) = rp_igs q /\
              subl (map ms_id (rp_msts (g q))) (map ms_id (rp_msts q))) ->
   (forall q, 0 < rp_sgdur q -> 0 < rp_sgdur (g q)) ->
   wf (upd_pol c db n g).
 Proof.
   intros c db n g H Hg Hdur. unfold upd_pol.
   eapply (wf_pols_meta_gen c _ (is_pol db n) g); try reflexivity; [exact H | | exact Hdur | cbn; tauto | | ].
-  - intros q. destruct (Hg q) as (? & ? & ? & ? & _). tauto.
+  - intros q. destruct (Hg q) as (? & ? & ? & ? & ? & _). tauto.
   - unfold mst_ids. cbn [pols set_pols max_mst]. eapply uniq_lt_subl; [|exact (wf_mst _ H)].
-    apply upd_first_flat_map_subl. intros x _. destruct (Hg x) as (_ & _ & _ & _ & S). exact S.
+    apply upd_first_flat_map_subl. intros x _. destruct (Hg x) as (_ & _ & _ & _ & _ & S). exact S.
   - cbn [max_mst set_pols]. pose proof (nonneg_get _ H). lia.
 Qed.
 
@@ -191,7 +241,7 @@ Qed.
 
 Lemma wf_drop_db : forall c db, wf c -> wf (fst (drop_db c db)).
 Proof.
-  intros c db H. unfold drop_db. cbn [fst ok].
+  intros c db H. unfold drop_db. destruct (find_db c db) as [x0|]; [|exact H]. clear x0. cbn [fst ok].
   set (fp := fun p => negb (rp_db p =? db)).
   constructor; cbn [pols dbs ptview ptnum set_ptview set_pols set_dbs max_sg max_sh max_ig max_ix max_mst max_node].
   - eapply subl_Forall; [apply subl_filter | exact (wf_groups _ H)].
@@ -216,6 +266,7 @@ Proof.
   - eapply subl_Forall; [apply subl_filter | exact (wf_ptv _ H)].
   - exact (wf_nonneg _ H).
   - eapply subl_Forall; [apply subl_filter | exact (wf_dur _ H)].
+  - eapply subl_Forall; [apply subl_filter | exact (wf_nm _ H)].
 Qed.
 
 (* ---------------------------------------------------------------- a policy without groups is added *)
@@ -260,6 +311,7 @@ Proof.
   - rewrite Epv, Epn. exact (wf_ptv _ H).
   - rewrite E1, E2, E3, E4, E5, E6, Epn. exact (wf_nonneg _ H).
   - rewrite Ep. apply Forall_app. split; [exact (wf_dur _ H)|]. constructor; [exact Hsgd | constructor].
+  - rewrite Ep. apply Forall_app. split; [exact (wf_nm _ H)|]. constructor; [reflexivity | constructor].
 Qed.
 
 Lemma norm_sgd_pos : forall sgd d, 0 < norm_sgd sgd d.
@@ -380,7 +432,8 @@ Proof.
     - exact Hdef.
     - rewrite Epv, Epn. exact (wf_ptv _ H).
     - rewrite E1, E2, E3, E4, E5, E6, Epn. exact (wf_nonneg _ H).
-    - rewrite Ep. cbn [pols c1 set_pols]. eapply subl_Forall; [apply subl_filter | exact (wf_dur _ H)]. }
+    - rewrite Ep. cbn [pols c1 set_pols]. eapply subl_Forall; [apply subl_filter | exact (wf_dur _ H)].
+    - rewrite Ep. cbn [pols c1 set_pols]. eapply subl_Forall; [apply subl_filter | exact (wf_nm _ H)]. }
   pose proof (wf_def _ H) as D.
   destruct (db_default x =? rp) eqn:Edef.
   - (* the default named the dropped policy: cleared *)
@@ -468,11 +521,12 @@ Proof.
 Qed.
 
 Lemma wf_pols_shrink_gen : forall c c', wf c -> Forall2 pol_shrink (pols c) (pols c') ->
+  Forall2 (fun p p' => rp_nm p' = rp_nm p) (pols c) (pols c') ->
   dbs c' = dbs c -> nodes c' = nodes c -> ptview c' = ptview c -> ptnum c' = ptnum c ->
   (max_sg c' = max_sg c /\ max_sh c' = max_sh c /\ max_ig c' = max_ig c /\ max_ix c' = max_ix c /\ max_mst c' = max_mst c /\ max_node c' = max_node c) ->
   wf c'.
 Proof.
-  intros c c' H HS Ed End Epv Epn (E1 & E2 & E3 & E4 & E5 & E6).
+  intros c c' H HS HNM Ed End Epv Epn (E1 & E2 & E3 & E4 & E5 & E6).
   assert (Ek : pol_keys c' = pol_keys c).
   { unfold pol_keys. eapply Forall2_map_eq; [|exact HS]. intros x y (_ & -> & -> & _). reflexivity. }
   constructor.
@@ -503,7 +557,18 @@ Proof.
   - rewrite Epv, Epn. exact (wf_ptv _ H).
   - rewrite E1, E2, E3, E4, E5, E6, Epn. exact (wf_nonneg _ H).
   - eapply Forall2_Forall; [|exact HS|exact (wf_dur _ H)]. intros x y (-> & _) Q. exact Q.
+  - assert (HB : Forall2 (fun p p' => rp_nm p' = rp_nm p /\ rp_name p' = rp_name p) (pols c) (pols c')).
+    { clear - HS HNM. revert HNM. induction HS; intros HNM; inversion HNM; subst; constructor; [|auto].
+      destruct H as (_ & _ & -> & _). auto. }
+    eapply Forall2_Forall; [|exact HB|exact (wf_nm _ H)]. intros x y (-> & ->) Q. exact Q.
 Qed.
+
+Lemma nm_same_updf : forall P g (l : list policy), (forall q, rp_nm (g q) = rp_nm q) ->
+  Forall2 (fun p p' => rp_nm p' = rp_nm p) l (upd_first P g l).
+Proof. intros. apply updf_Forall2; [reflexivity | intros; auto]. Qed.
+Lemma nm_same_map : forall g (l : list policy), (forall q, rp_nm (g q) = rp_nm q) ->
+  Forall2 (fun p p' => rp_nm p' = rp_nm p) l (map g l).
+Proof. intros. apply Forall2_map_r. auto. Qed.
 
 Lemma sg_sim_set_del : forall g, sg_sim g (sg_set_del g).
 Proof. intros. unfold sg_sim. cbn. repeat split; auto. apply sh_sim_refl. Qed.
@@ -511,7 +576,7 @@ Proof. intros. unfold sg_sim. cbn. repeat split; auto. apply sh_sim_refl. Qed.
 Lemma wf_delete_sg : forall c db rp id, wf c -> wf (fst (delete_sg c db rp id)).
 Proof.
   intros c db rp id H. unfold delete_sg. destruct (get_pol c db rp) as [p|]; [|exact H]. cbn [fst ok]. unfold upd_pol.
-  eapply (wf_pols_shrink_gen c); try reflexivity; [exact H | | cbn; tauto].
+  eapply (wf_pols_shrink_gen c); try reflexivity; [exact H | | apply nm_same_updf; reflexivity | cbn; tauto].
   cbn [pols set_pols]. apply updf_Forall2; [apply pol_shrink_refl|]. intros q _.
   unfold pol_shrink. cbn [rp_sgdur rp_db rp_name rp_sgs rp_igs rp_msts pol_set_sgs]. repeat split; try apply subl_refl; [|auto].
   eexists. split; [|apply subl_refl]. apply updf_Forall2; [apply sg_sim_refl | intros; apply sg_sim_set_del].
@@ -520,7 +585,7 @@ Qed.
 Lemma wf_delete_ig : forall c db rp id, wf c -> wf (fst (delete_ig c db rp id)).
 Proof.
   intros c db rp id H. unfold delete_ig. destruct (get_pol c db rp) as [p|]; [|exact H]. cbn [fst ok]. unfold upd_pol.
-  eapply (wf_pols_shrink_gen c); try reflexivity; [exact H | | cbn; tauto].
+  eapply (wf_pols_shrink_gen c); try reflexivity; [exact H | | apply nm_same_updf; reflexivity | cbn; tauto].
   cbn [pols set_pols]. apply updf_Forall2; [apply pol_shrink_refl|]. intros q _.
   assert (EI : ix_ids_of (pol_set_igs q (upd_first (fun g => ig_id g =? id) ig_set_del (rp_igs q))) = ix_ids_of q).
   { unfold ix_ids_of. cbn [rp_igs pol_set_igs]. apply updf_flat_map_same. reflexivity. }
@@ -532,7 +597,7 @@ Qed.
 Lemma sg_sim_prune_mark : forall id g, sg_sim g (prune_mark_sg id g).
 Proof.
   intros. unfold prune_mark_sg. destruct (_ && _); [|apply sg_sim_refl]. unfold sg_sim. cbn. repeat split; auto.
-  apply updf_Forall2; [auto | intros; cbn; auto].
+  apply updf_Forall2; [auto | intros x _; destruct (sh_id x =? id); cbn; auto].
 Qed.
 
 Lemma prune_sg_pol_shrink : forall c id p, pol_shrink p (prune_sg_pol c id p).
@@ -551,8 +616,9 @@ Qed.
 Lemma wf_prune_sg : forall c id, wf c -> wf (fst (prune_sg c id)).
 Proof.
   intros c id H. unfold prune_sg. cbn [fst ok].
-  eapply (wf_pols_shrink_gen c); try reflexivity; [exact H | | cbn; tauto].
-  cbn [pols set_pols]. apply Forall2_map_r. apply prune_sg_pol_shrink.
+  eapply (wf_pols_shrink_gen c); try reflexivity; [exact H | | | cbn; tauto].
+  - cbn [pols set_pols]. apply Forall2_map_r. apply prune_sg_pol_shrink.
+  - cbn [pols set_pols]. apply nm_same_map. intros q. unfold prune_sg_pol. destruct (_ && _); reflexivity.
 Qed.
 
 (* environment assumption of index pruning: an index group that the command removes is not referred to by any shard *)
@@ -562,13 +628,14 @@ Definition prune_ig_env (c : cat) (id : Z) : Prop :=
 
 Lemma prune_mark_ig_ids : forall id g, map ix_id (ig_indexes (prune_mark_ig id g)) = map ix_id (ig_indexes g) /\ ig_id (prune_mark_ig id g) = ig_id g.
 Proof.
-  intros. unfold prune_mark_ig. destruct (_ && _); [|auto]. cbn. split; [|reflexivity]. apply updf_map_same. reflexivity.
+  intros. unfold prune_mark_ig. destruct (_ && _); [|auto]. cbn. split; [|reflexivity]. apply updf_map_same.
+  intros x _. destruct (ix_id x =? id); reflexivity.
 Qed.
 
 Lemma wf_prune_ig : forall c id, wf c -> prune_ig_env c id -> wf (fst (prune_ig c id)).
 Proof.
   intros c id H Env. unfold prune_ig. cbn [fst ok].
-  eapply (wf_pols_shrink_gen c); try reflexivity; [exact H | | cbn; tauto].
+  eapply (wf_pols_shrink_gen c); try reflexivity; [exact H | | cbn [pols set_pols]; apply nm_same_map; reflexivity | cbn; tauto].
   cbn [pols set_pols].
   assert (G : forall p, In p (pols c) -> pol_shrink p (prune_ig_pol id p)).
   { intros p Hp. unfold pol_shrink, prune_ig_pol. cbn [rp_sgdur rp_db rp_name rp_sgs rp_igs rp_msts pol_set_igs]. repeat split; try apply subl_refl.
